@@ -20,9 +20,9 @@ from vplib import sexpr
 
 MANIFEST = dict(
     category="proof",
-    text="Coq theorems over a hand-written model of the executor's refcounted binary heap (all 24 instruction handlers, the select machine, notify_message/result/spawn, spawn_process, frame auto-pop and completion, replace_locals / release_orphan_locals): refcounts equal the exact number of occurrences in all roots after every choke point and every handler, between time slices (refcount_exact; partial: see note), a freed slot is referenced by no root (no_use_after_free), process_pending_free frees exactly queued slots with count 0 and leaves no counted-then-dropped slot unreclaimed (reclaim_sound / reclaim_complete), bytes of a slot reachable before and after a step are unchanged including in-place materialize and slot reuse (bytes_stable), inject(extract v) denotes the same bytes on the receiving heap (transfer_copies). The F9 and F46 leaks (fixed in /repo: b6882e1, 9ff9f6e) are exhibited as refuted witnesses for the code before the repairs; the theorems are about the code as committed. Validated, not proved: that the model is the code (differential execution of the extracted model against real Executors after every operation) and the oracle on the real code at all quanta.",
+    text="Coq theorems over a hand-written model of the executor's refcounted binary heap (all 24 instruction handlers, the select machine, notify_message/result/spawn, spawn_process, frame auto-pop and completion, replace_locals / release_orphan_locals): refcounts equal the exact number of occurrences in all roots after every choke point and every handler, between time slices (refcount_exact; partial: see note), a freed slot is referenced by no root (no_use_after_free), process_pending_free frees exactly queued slots with count 0 and leaves no counted-then-dropped slot unreclaimed (reclaim_sound / reclaim_complete), bytes of a slot reachable before and after a step are unchanged including in-place materialize and slot reuse (bytes_stable), inject(extract v) denotes the same bytes on the receiving heap (transfer_copies). The F9, F46 and F45h leaks (fixed in /repo: b6882e1, 9ff9f6e, 09625d4) are exhibited as refuted witnesses for the code before the repairs; the theorems are about the code as committed. Validated, not proved: that the model is the code (differential execution of the extracted model against real Executors after every operation) and the oracle on the real code at all quanta.",
     design_ref="§5 C06",
-    note="Findings: F9 and F46 fixed (their reproducers are must-pass regression probes in corpus/c06_*.txt), F45h known (Ok result overwritten by a propagated error). partial: the exact-count invariant is proved for every choke point, heap primitive and executor-level operation named in props/C06.v; handlers proved as compositions are listed there (the select machine with filters is covered by correspondence + oracle, its theorem is stated for the repaired code). Debug-build semantics (debug_assert = panic). Scheduling state (queue / parked sets) is not modelled: which process runs is an input.",
+    note="Findings F9, F46 and F45h are fixed in /repo (b6882e1, 9ff9f6e, 09625d4); their reproducers are must-pass regression probes in corpus/c06_*.txt. partial: the exact-count invariant is proved for every choke point, heap primitive and executor-level operation named in props/C06.v; handlers proved as compositions are listed there (the select machine with filters is covered by correspondence + oracle, its theorem is stated for the repaired code). Debug-build semantics (debug_assert = panic). Scheduling state (queue / parked sets) is not modelled: which process runs is an input.",
     technique="Coq proof (multiset counting invariant, delta form per handler) + extraction + differential execution against the real executor after every operation + real-code oracle (check_refcounts, use-after-free, shadow bytes) under generated schedules and quanta down to 1",
 )
 
